@@ -27,6 +27,7 @@ class C02(core.Check):
             'addresses and bytes from the layout model; observed via the listing address column of every line and the image. '
             'thorough adds the exhaustive .align sweep p in {1,2,3,4,8,16,256} x address 0..2p. distinct_nontrivial = distinct '
             '(sorted feature-tag set) of programs with at least one label reference.')
+    rule = rule + ' ' + 'macro lines whose sub-byte steps are padded to whole bytes one by one stand among the byte lines.'
     assumptions = ('a label immediately followed by an origin/alignment/zone directive is not generated (the statement does not '
                    'fix whether it takes the address before or after the directive)',
                    'layout-affecting expressions use literals only; negative fill counts are not generated')
